@@ -1262,6 +1262,7 @@ func c18R4(p *Prog, r *Report) {
 		}
 		r.Check(hit == "", rule, fmt.Sprintf("service.(*ClientConfig).Initialize:no-panic-for-network:%q", name), p.posStr(ci.Body.Pos()), "no panic is reachable when the network option starts as this value", fmt.Sprintf("with network %q Initialize reaches a panic (the option then being %q): an accepted configuration crashes the process at start-up instead of being refused", name, hit))
 	}
+	c18ClientAddresses(p, r, rule)
 	r.Floor(rule, 5)
 }
 
@@ -1555,4 +1556,142 @@ func c18PSKCheckCoversEveryKey(p *Prog, r *Report, rule string) {
 		}
 	}
 	r.Check(n >= 2, rule, prefix+":key-parameters", p.posStr(fc.Body.Pos()), "user key and key list parameters found", fmt.Sprintf("only %d key parameters found in CheckPSKLength", n))
+}
+
+// c18ClientAddresses: a proxy client is built only with the server address its transport needs. The
+// TCP client dials cc.TCPAddress, the UDP client resolves cc.UDPAddress on every new session
+// (ResolveIPPort / IPPort panic on the zero Addr), so checkAddresses must not let a configuration
+// through whose enabled transport has no valid address. Decided as a path property of checkAddresses:
+// for X in {TCP, UDP}, no path from the entry to a nil return avoids all of (a) the valid edge of a test
+// of cc.<X>Address.IsValid(), (b) the false edge of a test of cc.Enable<X>, (c) an assignment of
+// cc.<X>Address that lies behind the valid edge of a test of its right-hand side's IsValid(), (d) the
+// true edge of Protocol == "direct" (the direct client has no server).
+func c18ClientAddresses(p *Prog, r *Report, rule string) {
+	fc := p.Inlined(p.Func("service", "ClientConfig", "checkAddresses"))
+	info := fc.Info()
+	recv := fc.RecvObj()
+	prefix := "service.(*ClientConfig).checkAddresses"
+	isValidOf := func(e ast.Expr) string { // "<Field>" when e is recv.<Field>.IsValid()
+		c, ok := ast.Unparen(fc.Resolve(e)).(*ast.CallExpr)
+		if !ok || len(c.Args) != 0 {
+			return ""
+		}
+		sel, ok := ast.Unparen(c.Fun).(*ast.SelectorExpr)
+		if !ok || sel.Sel.Name != "IsValid" {
+			return ""
+		}
+		root, path, okp := pathOf(info, sel.X)
+		if !okp || root != recv {
+			return ""
+		}
+		return strings.TrimPrefix(path, ".")
+	}
+	fieldOf := func(e ast.Expr) string {
+		root, path, okp := pathOf(info, e)
+		if !okp || root != recv {
+			return ""
+		}
+		return strings.TrimPrefix(path, ".")
+	}
+	validEdges := map[string][]Edge{}
+	disabledEdges := map[string][]Edge{}
+	var directEdges []Edge
+	for _, v := range fc.G.V {
+		if v.Kind == VCond {
+			if f := isValidOf(v.Node.(ast.Expr)); f != "" {
+				for _, e := range v.Succs {
+					if e.Label == LTrue {
+						validEdges[f] = append(validEdges[f], e)
+					}
+				}
+			}
+			if f := fieldOf(v.Node.(ast.Expr)); f != "" {
+				for _, e := range v.Succs {
+					if e.Label == LFalse {
+						disabledEdges[f] = append(disabledEdges[f], e)
+					}
+				}
+			}
+		}
+		if x, y, op, ok := condParts(v); ok && y != nil && (op == token.EQL || op == token.NEQ) {
+			for _, pr := range [][2]ast.Expr{{x, y}, {y, x}} {
+				if fieldOf(pr[0]) == "Protocol" {
+					if tv, okc := info.Types[pr[1]]; okc && tv.Value != nil && tv.Value.String() == `"direct"` {
+						for _, e := range v.Succs {
+							if (op == token.EQL && e.Label == LTrue) || (op == token.NEQ && e.Label == LFalse) {
+								directEdges = append(directEdges, e)
+							}
+						}
+					}
+				}
+			}
+		}
+	}
+	for _, x := range []string{"TCP", "UDP"} {
+		addr, enable := x+"Address", "Enable"+x
+		// (c) assignments cc.<X>Address = cc.<F> behind F's valid edge
+		stopV := map[int]bool{}
+		for _, v := range fc.G.V {
+			as, ok := v.Node.(*ast.AssignStmt)
+			if !ok || v.Kind != VStmt || len(as.Lhs) != len(as.Rhs) {
+				continue
+			}
+			for i, l := range as.Lhs {
+				if fieldOf(l) != addr {
+					continue
+				}
+				if f := fieldOf(as.Rhs[i]); f != "" && len(validEdges[f]) > 0 && fc.G.EdgeDominates(validEdges[f], v.ID) {
+					stopV[v.ID] = true
+				}
+			}
+		}
+		stopE := map[Edge]bool{}
+		for _, e := range validEdges[addr] {
+			stopE[e] = true
+		}
+		for _, e := range disabledEdges[enable] {
+			stopE[e] = true
+		}
+		for _, e := range directEdges {
+			stopE[e] = true
+		}
+		reach := fc.G.Reach([]int{fc.G.Entry}, func(u *Vertex) bool { return stopV[u.ID] }, func(e Edge) bool { return stopE[e] })
+		bad := ""
+		for _, ret := range fc.Returns() {
+			if reach[ret] && !stopV[ret] && fc.ErrAtReturn(ret) != ErrNonNil {
+				bad = p.posStr(fc.G.V[ret].Node.Pos())
+			}
+		}
+		r.Check(bad == "" && len(validEdges[addr]) > 0 && len(disabledEdges[enable]) > 0, rule, prefix+":enabled-transport-has-valid-address:"+x, p.posStr(fc.Body.Pos()),
+			"every accepted configuration with "+enable+" has a valid "+addr+" (or takes it from a valid endpoint, or is the direct client)",
+			"checkAddresses can accept (return at "+bad+") a configuration with "+enable+" set whose "+addr+" was never found valid: the "+x+" client is built on the zero address and the first connection / session panics in conn.Addr ("+fmt.Sprintf("%d validity tests, %d enable tests found", len(validEdges[addr]), len(disabledEdges[enable]))+")")
+	}
+	// the check runs before anything is built from the addresses
+	ci := p.Func("service", "ClientConfig", "Initialize")
+	var chk *CallSite
+	for _, cs := range ci.AllCalls() {
+		if cs.Fn != nil && cs.Fn.Name() == "checkAddresses" {
+			c := cs
+			chk = &c
+		}
+	}
+	okOrder := chk != nil
+	if chk != nil {
+		for _, v := range ci.G.V {
+			if v.Node == nil || v.ID == chk.V {
+				continue
+			}
+			uses := false
+			inspectNoLit(v.Node, func(n ast.Node) bool {
+				if sel, ok := n.(*ast.SelectorExpr); ok && (sel.Sel.Name == "TCPAddress" || sel.Sel.Name == "UDPAddress") && objOf(ci.Info(), sel.X) == ci.RecvObj() {
+					uses = true
+				}
+				return true
+			})
+			if uses && !chk.SuccessGuards(v.ID) {
+				okOrder = false
+			}
+		}
+	}
+	r.Check(okOrder, rule, "service.(*ClientConfig).Initialize:addresses-checked-before-use", p.posStr(ci.Body.Pos()), "every use of the server addresses in Initialize lies behind the success of checkAddresses", "Initialize uses TCPAddress/UDPAddress on a path that did not pass checkAddresses successfully")
 }
